@@ -702,7 +702,7 @@ func writeEvidence(id, tier string, seed int, sp *propSpec, results []*harnessRe
 			"traces_validated_against_impl": traces,
 			"samples":                       samples,
 			"exhaustive":                    !inconclusive,
-			"explanation":                   "states = feasible execution paths of the real functions explored symbolically (each covers every input satisfying its path condition); transitions = solver-decided branch points; every assertion on every path was discharged by an SMT query (unsat of the negation) within the stated bounds",
+			"explanation":                   "states = feasible execution paths of the real functions explored symbolically (each covers every input satisfying its path condition); transitions = solver-decided branch points (branches and assertions whose condition is concrete on a path - e.g. after an enumerated case split - are evaluated directly and not counted); every assertion with a symbolic condition was discharged by an SMT query (unsat of its negation under the path condition) within the stated bounds; per harness: assertions_checked vs assertion_queries tells the two apart",
 			"functions_encoded":             fl,
 			"stubs_and_summaries_hit":       stubs,
 			"modelling_notes":               notes,
